@@ -286,7 +286,7 @@ func c09RunScenario(t *testing.T, idx int, sc c09Scenario) c09ScOut {
 		// wait for quiescence: the expected observation, stable, or a timeout
 		var obs [][]int
 		timeout := false
-		deadline := time.Now().Add(1500 * time.Millisecond)
+		deadline := time.Now().Add(4 * time.Second)
 		for {
 			obs = w.observe(sys)
 			if ai < len(sc.Expect) && c09ObsEq(obs, sc.Expect[ai]) {
